@@ -83,6 +83,9 @@ type BlockPipeline struct {
 	wg              sync.WaitGroup
 	mu              sync.Mutex   // protects Start/Stop
 	submitMu        sync.RWMutex // protects Submit against concurrent Stop
+	// submitToken (capacity 1) is held while a submitter reads the next
+	// sequence number and sends its item
+	submitToken chan struct{}
 }
 
 // NewBlockPipeline creates a new BlockPipeline using functional options.
@@ -100,8 +103,9 @@ func NewBlockPipeline(opts ...PipelineOption) *BlockPipeline {
 		opt(&config)
 	}
 	return &BlockPipeline{
-		config:  config,
-		metrics: NewPipelineMetrics(config.MetricsWindowSize),
+		config:      config,
+		metrics:     NewPipelineMetrics(config.MetricsWindowSize),
+		submitToken: make(chan struct{}, 1),
 	}
 }
 
@@ -225,18 +229,30 @@ func (p *BlockPipeline) Submit(ctx context.Context, blockType uint, rawCbor []by
 		return ErrPipelineStopped
 	}
 
-	// Allocate sequence number only once, then send.
-	// We use a single blocking select to avoid sequence gaps that would occur
-	// if we allocated in a non-blocking attempt that failed.
-	item := NewBlockItem(blockType, rawCbor, tip, p.sequenceCounter.Add(1)-1)
+	// A sequence number is consumed only by a submission that is actually
+	// delivered: the apply stage waits for every number in turn, so a number
+	// taken by a submission that then fails (context expired while the
+	// pipeline is full) would stall every later block. The token serialises
+	// "read the next number, send, advance" between concurrent submitters
+	// while still honouring both contexts.
+	select {
+	case p.submitToken <- struct{}{}:
+	case <-ctx.Done():
+		return ctx.Err()
+	case <-p.ctx.Done():
+		return ErrPipelineStopped
+	}
+	defer func() { <-p.submitToken }()
+
+	item := NewBlockItem(blockType, rawCbor, tip, p.sequenceCounter.Load())
 
 	select {
 	case p.submitChan <- item:
+		p.sequenceCounter.Add(1)
 		p.metrics.RecordSubmit()
 		return nil
 	case <-ctx.Done():
-		// Context cancelled while waiting - sequence gap is acceptable
-		// because this typically means shutdown.
+		// Context cancelled while waiting: no sequence number was consumed
 		return ctx.Err()
 	case <-p.ctx.Done():
 		return ErrPipelineStopped
